@@ -411,6 +411,9 @@ TSnap ==
        ELSE IF LeafVerdict # "ok" /\ ~(after /\ LeafVerdict = "NC:leaf-open-count-differs-from-reference") THEN LeafVerdict
        ELSE IF ~ObsExclusion THEN "C20:two-owners-hold-conflicting-locks"
        ELSE IF LockCountVerdict # "ok" THEN LockCountVerdict
+       ELSE IF \/ \E p \in Rng(Line.pool) : p.use # Cardinality({r \in ObsOofs : r.f = p.f})
+               \/ \E r \in ObsOofs : ~\E p \in Rng(Line.pool) : p.f = r.f
+         THEN "C18:opened-files-pool-does-not-account-for-the-open-files"
        ELSE IF after /\ (ObsOofs # ModelOofs \/ ObsLofs # ModelLofs \/ ObsLocks # ModelLocks \/ ObsDir # ModelDir
                            \/ LeafVerdict # "ok")
          THEN "C19:request-that-must-not-execute-changed-state"
@@ -420,8 +423,6 @@ TSnap ==
        ELSE IF ObsIncs # ModelIncs THEN "NC:client-records-differ-from-reference"
        ELSE IF ObsSess # ModelSess THEN "NC:session-records-differ-from-reference"
        ELSE IF ObsDir # ModelDir THEN "NC:directory-differs-from-reference"
-       ELSE IF \E p \in Rng(Line.pool) : p.use # Cardinality({r \in ObsOofs : r.f = p.f})
-         THEN "NC:pool-use-count"
        ELSE IF ~Line.lk THEN "NC:server-lock-left-held"
        ELSE "ok"
 
